@@ -368,6 +368,8 @@ def run(pid, cfg, tier, seed, scr, only, a, t0):
             batch = dict(batch, jobs=a.jobs)
         if tier == "quick" and batch.get("thorough_only"):
             continue
+        if only and only.startswith("engine:"):
+            continue
         res, wall, tail, cmd = run_kani_batch(scr, batch, tier, idx, only)
         cmds.append(cmd)
         if res is None:
@@ -385,9 +387,8 @@ def run(pid, cfg, tier, seed, scr, only, a, t0):
         log("[A] batch %d: %d harnesses in %.0fs" % (idx, len(res), wall))
     # ---- Engines B / C
     for eng in cfg.get("engines", []):
-        if only and not a.replay and eng not in (only or ""):
-            if not only.startswith("engine:"):
-                continue
+        if only and only != "engine:" + eng["module"]:
+            continue
         try:
             mod = __import__(eng["module"])
             res = getattr(mod, eng["func"])(scr.repo, tier, seed, scr.dir)
@@ -422,6 +423,11 @@ def run(pid, cfg, tier, seed, scr, only, a, t0):
             q["status"] = "UNREPRODUCED"
             unreproduced.append(q)
 
+    advisories = [q for q in queries if q["status"] == "NOTE"]
+    queries = [q for q in queries if q["status"] != "NOTE"]
+    for q in advisories:
+        log("  NOTE  %s: %s" % (q["name"], q.get("detail", "")))
+        notes.append("%s: %s" % (q["name"], q.get("detail", "")))
     holds = [q for q in queries if q["status"] == "HOLDS"]
     undec = [q for q in queries if q["status"] == "UNDECIDED"]
     wall = time.time() - t0
